@@ -5,7 +5,9 @@ PROP = dict(
          'policies) and constructed boards that fit the default reserves (stacks up to 12 high, walls and capstones on stacks, both capstones '
          'of a colour on 7x7/8x8, empty runs of every length): FormatTPS, parse back, Equal both ways, Hash, four reserves, ply and side. '
          'S cases: canonical strings (FormatTPS output re-parsed and re-formatted) and a malformed stream (structure-aware mutations, '
-         'ragged rows, huge numbers, edge cases). distinct = distinct case strings',
+         'ragged rows, huge numbers, edge cases). Client lines: reachable positions of random games handed to tei.Player.TEIGetMove (one tei.Client for 1-3 games, the same '
+         'board and side to move again at later move numbers, boards of earlier games again) - the `position tps` line the engine process received is parsed back and compared '
+         'with the position (Equal both ways, hash, reserves, side, move number; class client-line-roundtrip); a quarter of them are also F cases. distinct = distinct case strings',
     assumptions=['default piece counts (ParseTPS always assumes them)'],
 )
 MANIFEST = dict(
